@@ -144,7 +144,8 @@ def ack_oracle(case: Dict[str, Any], res: P.CaseResult) -> Optional[str]:
         if st == "ok" and d == "noop" and n != 0:
             return f"{a} reported that nothing was to be done, yet the store applied a pointer write of {a}"
     for h in hist:
-        if h["validated"] is None or bytes(h["replaced"] or b"") != bytes(h["validated"]):
+        # (a committer whose validation read the log does not show is the correspondence's business: Nonconforming there)
+        if h["validated"] is not None and bytes(h["replaced"] or b"") != bytes(h["validated"]):
             return (f"{h['owner']}'s pointer write replaced {h['replaced']!r} but {h['owner']} had validated against "
                     f"{h['validated']!r}")
     return c01.serial_oracle(case, res, flips=owners)
